@@ -10,7 +10,7 @@ from typing import Dict, List, Optional, Set, Tuple
 from .ctx import Ctx
 from .model import AnalysisError, ClassInfo, FieldInfo, FunctionInfo
 from .report import RuleResult
-from .terms import (Attr, BoundMethod, Call, ClassRef, Comp, Const, EnumMember, Evaluator, Ext, GlobalVal, Guard, Lam,
+from .terms import (Attr, BoundMethod, Call, ClassRef, Comp, Const, EnumMember, Evaluator, Ext, GlobalVal, Guard, Lam, helper_inline,
                     Loop, Op, Opaque, Outcome, Sub, Sym, Term, TupleT, alternatives, guards_repr, norm_guards, walk)
 from .util import all_terms, call_name, call_recv, is_self_attr, method_calls, none_test, outcome_terms
 
@@ -737,29 +737,71 @@ def _delegation_chain(ctx: Ctx, r: RuleResult):
     """property -> every event -> predicate -> whole expression, with the arguments passed through unchanged"""
     m = ctx.model
     mt = Sym('msg_types')
+    se_cls = m.cls('HplSimpleEvent', 'S5')
+    ed = m.cls('HplEventDisjunction', 'S5')
+    ev = Evaluator(m, inline=helper_inline(('hpl.ast.properties', 'hpl.ast.events')))
+
+    def checks_predicate(name: str) -> bool:
+        """on a simple event, method `name` checks the predicate against the given channel map"""
+        f2 = se_cls.resolve(name)
+        if f2 is None or len(f2.params()) < 2:
+            return False
+        s2 = Sym('self', 'HplSimpleEvent')
+        for o2 in ev.run(f2, {'self': s2, f2.params()[1]: mt}, self_cls=se_cls):
+            for cl in method_calls(list(o2.effects) + list(o2.trace), 'type_check_references'):
+                if call_recv(cl) == Attr(s2, 'predicate') and any(mt in (a, getattr(a, 'base', None)) or any(y == mt for y in walk(a)) for a in list(cl.args) + [v for _, v in cl.kwargs]):
+                    return True
+        return False
+
+    def all_simple_events(it: Term, owner: Term) -> Optional[str]:
+        """the iterable ranges over every event below `owner`: 'events' (its direct events) or 'simple' (their leaves)"""
+        if isinstance(it, Call) and call_name(it) == 'events' and call_recv(it) == owner and not it.args:
+            return 'events'
+        if isinstance(it, Call) and call_name(it) == 'simple_events' and call_recv(it) == owner and not it.args:
+            return 'simple'
+        if isinstance(it, Call) and isinstance(it.func, Ext) and it.func.name.split('.')[-1] in ('from_iterable', 'chain', 'tuple', 'list') and it.args:
+            inner = it.args[0]
+            if isinstance(inner, Op) and inner.op == '*' and len(inner.args) == 1:
+                inner = inner.args[0]
+            if isinstance(inner, Comp) and len(inner.gens) == 1 and not inner.gens[0][2] and all_simple_events(inner.gens[0][1], owner) \
+                    and isinstance(inner.elt, Call) and call_name(inner.elt) == 'simple_events' and call_recv(inner.elt) == Sym('each:' + inner.gens[0][0]):
+                return 'simple'
+            return all_simple_events(inner, owner)
+        return None
+
+    def delegating_loops(outs, owner: Term, key: str, where: str) -> bool:
+        ok_ = False
+        for o in outs:
+            for e in o.effects:
+                if not isinstance(e, Loop) or all_simple_events(e.iter, owner) is None:
+                    continue
+                each = Sym(f'each:{e.target}')
+                for pg, flow, binds, effs in e.paths:
+                    cs = [c for c in effs if isinstance(c, Call) and call_recv(c) == each and call_name(c) is not None and
+                          (call_name(c) == 'type_check_references' or checks_predicate(call_name(c)))]
+                    if len(cs) == 1 and not pg and cs[0].args == (mt,) and flow == 'end':
+                        ok_ = True
+                    elif cs and cs[0].args != (mt,):
+                        r.fail(key + ':map', f'events are checked against {str(cs[0].args)[:60]}, not against the caller\'s channel map itself: entries added or shadowed there change which schema a channel resolves to', where)
+        return ok_
     # property level
     pc = m.cls('HplProperty', 'S5')
     fi = pc.resolve('type_check_references')
     sp = Sym('self', 'HplProperty')
-    outs = ctx.ev.run(fi, {'self': sp, fi.params()[1]: mt}, self_cls=pc)
-    ok = False
-    for o in outs:
-        for e in o.effects:
-            if isinstance(e, Loop) and isinstance(e.iter, Call) and call_name(e.iter) == 'events' and call_recv(e.iter) == sp:
-                for pg, flow, binds, effs in e.paths:
-                    cs = method_calls(list(effs), 'type_check_references')
-                    if len(cs) == 1 and not pg and cs[0].args == (mt,) and isinstance(call_recv(cs[0]), Sym):
-                        ok = True
-                    elif cs and cs[0].args != (mt,):
-                        r.fail('HplProperty.type_check_references:map', f'events are checked against {str(cs[0].args)[:60]}, not against the caller\'s channel map itself: entries added or shadowed there change which schema a channel resolves to', fi.where)
+    outs = ev.run(fi, {'self': sp, fi.params()[1]: mt}, self_cls=pc)
+    ok = delegating_loops(outs, sp, 'HplProperty.type_check_references', fi.where)
     (r.ok('HplProperty: every event of events() is checked against the given channel map') if ok else r.fail('HplProperty.type_check_references', 'does not check every event of events() against msg_types', fi.where))
     # disjunction
-    ed = m.cls('HplEventDisjunction', 'S5')
     fi = ed.resolve('type_check_references')
     se = Sym('self', 'HplEventDisjunction')
-    outs = ctx.ev.run(fi, {'self': se, fi.params()[1]: mt}, self_cls=ed)
-    recvs = {call_recv(cl).name for o in outs for cl in method_calls(list(o.effects) + list(o.trace), 'type_check_references') if isinstance(call_recv(cl), Attr) and cl.args == (mt,)}
-    (r.ok('HplEventDisjunction: both alternatives') if recvs == {'event1', 'event2'} else r.fail('HplEventDisjunction.type_check_references', f'checks {sorted(recvs)} instead of event1 and event2', fi.where))
+    outs = ev.run(fi, {'self': se, fi.params()[1]: mt}, self_cls=ed)
+    recvs = {call_recv(cl).name for o in outs for cl in method_calls(list(o.effects) + list(o.trace), 'type_check_references') if isinstance(call_recv(cl), Attr) and call_recv(cl).base == se and cl.args == (mt,)}
+    if recvs == {'event1', 'event2'}:
+        r.ok('HplEventDisjunction: both alternatives')
+    elif delegating_loops(outs, se, 'HplEventDisjunction.type_check_references', fi.where):
+        r.ok('HplEventDisjunction: every simple event below it (simple_events(), rule S8)')
+    else:
+        r.fail('HplEventDisjunction.type_check_references', f'checks {sorted(recvs)} instead of event1 and event2', fi.where)
     # predicate level
     pe = m.cls('HplPredicateExpression', 'S5')
     fi = pe.resolve('type_check_references')
